@@ -1,5 +1,14 @@
 pub mod c18;
+pub mod c26;
+pub mod c27;
+/// Needs hook H5 (hooks/H5-backoff.diff) in /repo/p2panda-net: enable with `--features hook_h5`.
+#[cfg(feature = "hook_h5")]
+pub mod c28;
 
 pub fn all() -> Vec<&'static dyn simcore::Property> {
-    vec![&c18::C18]
+    #[allow(unused_mut)]
+    let mut v: Vec<&'static dyn simcore::Property> = vec![&c18::C18, &c26::C26, &c27::C27];
+    #[cfg(feature = "hook_h5")]
+    v.push(&c28::C28);
+    v
 }
